@@ -5,18 +5,6 @@ From LT Require Import RbcModel RbcLemmas RbcStep.
 Import ListNotations.
 Local Open Scope Z_scope.
 
-Lemma range_nodup : forall n, NoDup (range n).
-Proof.
-  intros n. unfold range. apply Injective_map_NoDup; [|apply seq_NoDup].
-  intros a b E. lia.
-Qed.
-Lemma range_in : forall n i, In i (range n) <-> 0 <= i < n.
-Proof.
-  intros n i. unfold range. rewrite in_map_iff. split.
-  - intros (k & <- & I). apply in_seq in I. lia.
-  - intros R. exists (Z.to_nat i). split; [lia|]. apply in_seq. lia.
-Qed.
-
 Section Step2.
 Variables (n t : Z) (H : Z -> Z) (toolong : tagT -> Z -> bool).
 Notation handle := (handle n t H toolong).
